@@ -15,6 +15,8 @@ CLAIMED = {
    text='Seeded search over call histories (bounded-exhaustive prefix of length <= 3 over a 14-op core alphabet, then random to 30/60 ops) on process-global registries, one OS process per history; callbacks fail or re-enter the registry API while a run is in flight. After every call a probe battery (which plugins/contracts/aliases a fresh run or compile actually uses; a registry-independent battery of compiles and runs) is compared with a set/dict model. Exploration is the right level: the property quantifies over histories, which the simulator generates, shrinks and replays.'),
  'C15': dict(section='3.3', technique='deterministic simulation: seeded swap histories (sender, receiver, outsider, ledger) with creator/validator clock faults and single-bit witness corruption; item-level and who-does-what reference models on recorded clock reads',
    text='Seeded search over histories in which HTLC/PTLC outputs are created on the sender clock and then attacked by receiver, sender and an outsider (who learns preimages only from published claims) on validators whose clocks are skewed, fractional, stepping (also between the two reads of one validation) or frozen, with single-bit corruption of witness items and all 24 witness-kind x lock-kind cross pairings. Two independent oracles judge every attempt. Exploration is the right level: deadlines are relations between two clocks the tests never control.'),
+ 'C14': dict(section='3.2', technique='deterministic simulation: seeded lease histories (root, foreign root, delegate chains 1-6, attacker) with validator clock faults (skew, fractional, step between reads, freeze) and transport tampering (bit flips per certificate field, splice, drop, dup, reorder); item-level and who-level reference models on recorded clock reads',
+   text='Certificates are leases: seeded search over issuance chains and spend attempts validated on simulated clocks that are skewed, fractional, frozen or step between the two timestamp reads of a link, with single-bit corruption of every certificate field and of the final signature, cross-root splices, dropped/duplicated/reordered links, non-delegable mid-chain links, wrong signers, cross-lock witnesses and replays after expiry; every certificate is round-tripped. Exploration is the right level: window membership is a relation between t and a clock the tests never control.'),
 }
 NA = {
  'C01': 'verdict is a function of (script list, cache, limits) computed in one synchronous call; no clock, schedule, fault or history to simulate (its never-raises clause is only carried as an auxiliary probe)',
